@@ -446,7 +446,7 @@ func main() {
 	run.Finish(core.Coverage{
 		"evaluations":         int(atomic.LoadInt64(&c.evals)),
 		"distinct_nontrivial": c.classes.Len(),
-		"rule": strings.NewReplacer("{C}", fmt.Sprint(wire.ReadSliceChunkSize), "{MOD}", fmt.Sprint(nilModulus())).Replace("(1) every registered concrete type of the wire interfaces ConsensusMessage, WALMessage (inside TimedWALMessage, with every ConsensusMessage inside msgInfo), BlockchainMessage, MempoolMessage, PexMessage, trace Message, Signature, PubKey (found by walking go-wire's registry at run time) and the top-level types Block, Header, Data, Commit, Vote, Proposal, PartSetHeader, Part, BlockID, Validator, ValidatorSet, BlockMeta, GenesisDoc, State, NodeInfo: values generated by reflection = 4 bases (A, B, all-min, all-max) + around A and B every leaf replaced by every alternative, one leaf at a time (signed ints {min,min+1,-1,0,1,±2^53,2^53+1,max}, unsigned {0,1,2^53,2^53+1,2^63,max} (bytes also 2,0x7f,0x80), strings {empty, a, quote+backslash, unicode, a\",\"b, <&>+control}, byte slices {len 0,1,32,1025; nil and empty are one value}, byte arrays {zero,pattern,ff}, times {zero (JSON only: outside the int64-nanosecond domain the binary codec documents), epoch, fixed now, latest and earliest millisecond-aligned int64-nanosecond instants, 1 ms before epoch; all millisecond-aligned = documented precision}, pointers {nil,set}, registered interfaces {nil, each concrete type}, slices len {0,1,3}; every slice with non-byte elements (pointer, struct with interface fields, byte-slice, string, integer elements: Commit.Precommits, ValidatorSet.Validators, GenesisDoc.Validators, Data.Txs, pex addresses, bit-array words, ...) also with the lengths C-1, C, C+1, 2C-1, 2C, 2C+1, 3C+1 around the chunk size C = wire.ReadSliceChunkSize = {C} in which the binary decoder reads element slices, every element generated from its own path (pairwise distinguishable) and with nil slots: element i is a nil pointer if i mod {MOD} = 1, pointers and interfaces below a non-nil element are nil if i mod {MOD} = 2 (period coprime to C, so slots j and j+C differ in phase); these long values are built, checked and dropped one at a time and take part in the round trip only); each value through wire.BinaryBytes/ReadBinary (limit 0 and limit = length) and wire.JSONBytes/ReadJSON; oracle: decoded value equals the original field by field over the fields the codec handles, re-encoding equal, two encodings equal, no panic. " +
+		"rule": strings.NewReplacer("{C}", fmt.Sprint(wire.ReadSliceChunkSize), "{MOD}", fmt.Sprint(nilModulus())).Replace("(1) every registered concrete type of the wire interfaces ConsensusMessage, WALMessage (inside TimedWALMessage, with every ConsensusMessage inside msgInfo), BlockchainMessage, MempoolMessage, PexMessage, trace Message, Signature, PubKey (found by walking go-wire's registry at run time) and the top-level types Block, Header, Data, Commit, Vote, Proposal, PartSetHeader, Part, BlockID, Validator, ValidatorSet, BlockMeta, GenesisDoc, State, NodeInfo: values generated by reflection = 4 bases (A, B, all-min, all-max) + around A and B every leaf replaced by every alternative, one leaf at a time (signed ints {min,min+1,-1,0,1,±2^53,2^53+1,max}, unsigned {0,1,2^53,2^53+1,2^63,max} (bytes also 2,0x7f,0x80), strings {empty, a, quote+backslash, unicode, a\",\"b, <&>+control}, byte slices {len 0,1,32,1025; nil and empty are one value}, byte arrays {zero,pattern,ff}, times {zero (JSON only: outside the int64-nanosecond domain the binary codec documents), epoch, fixed now, latest and earliest millisecond-aligned int64-nanosecond instants, 1 ms before epoch; all millisecond-aligned = documented precision; the fixed now also in the locations UTC+8, UTC-3:30 and time.Local and the epoch also in UTC-3:30 and time.Local (time.Local of this process is set to a fixed zone UTC+5:45, as for a node started with a non-UTC TZ; it is also the location of every time the binary decoder returns)}, pointers {nil,set}, registered interfaces {nil, each concrete type}, slices len {0,1,3}; every slice with non-byte elements (pointer, struct with interface fields, byte-slice, string, integer elements: Commit.Precommits, ValidatorSet.Validators, GenesisDoc.Validators, Data.Txs, pex addresses, bit-array words, ...) also with the lengths C-1, C, C+1, 2C-1, 2C, 2C+1, 3C+1 around the chunk size C = wire.ReadSliceChunkSize = {C} in which the binary decoder reads element slices, every element generated from its own path (pairwise distinguishable) and with nil slots: element i is a nil pointer if i mod {MOD} = 1, pointers and interfaces below a non-nil element are nil if i mod {MOD} = 2 (period coprime to C, so slots j and j+C differ in phase); these long values are built, checked and dropped one at a time and take part in the round trip only); each value through wire.BinaryBytes/ReadBinary (limit 0 and limit = length) and wire.JSONBytes/ReadJSON; oracle: decoded value equals the original field by field over the fields the codec handles, re-encoding equal, two encodings equal, no panic; a time counts as unchanged iff it denotes the same instant (time.Equal), and a value with a time leaf in a non-UTC location must encode (binary and JSON), and a Header hash, byte-for-byte like the value with the same instant in UTC. " +
 			"(2) every byte string of length <= 2 into every one of these top-level types through ReadBinary (limits 0,1,len-1,len,len+1), ReadBinaryBytes, ReadJSON and the five reactors' DecodeMessage (pbft, blockchain, mempool, pex, trace); every truncation and every single-byte substitution {00,01,7f,80,ff} of grid encodings of at most 2048 bytes (quick: the 4 bases per root; thorough: also every grid value whose varied leaf can change the structure of the encoding, i.e. all but fixed-width integers, bools, byte arrays and times, those with limits {1,len}) through ReadBinary with limits {1,len-1,len,len+1} and DecodeMessage, and of JSON encodings through ReadJSON plus every JSON node replaced by values of every other JSON type; 2^62 and 2^31 length prefixes at every length-prefix position of the bases (thorough: also of the structural variants); oracle: error or value, never a panic, n <= limit or error, and (single-threaded phase) TotalAlloc delta of one decode <= 64*limit + 1 MiB. Limit 0 means 'no limit' in go-wire: mutated inputs and the 2^31 bomb are not offered with limit 0 (allocation is unbounded by the caller's choice and the Go runtime aborts the process for lengths of 2^33..2^48), the 2^62 bomb is (it cannot allocate, only panic). " +
 			"(3) all ordered pairs over the vote grid and the proposal grid and across them (chain ids incl. JSON-breaking ones, heights {0,1,2^32,2^63-1}, rounds {0,1}, types {prevote,precommit}, block ids {all 8 combinations of empty / non-empty hash, parts total, parts hash (among them nil, the full id A, and ids with an empty hash and a non-zero parts header), A' differing from A in the last byte of the hash / parts total / last byte of the parts hash; thorough: further one-component variants}, POL rounds {-1,0,1}, POL block ids = those 11, block parts headers {all 4 combinations of zero / non-zero total and hash, one-component variants}): equal sign-bytes imply equal chain id, height, round, type, block id (and POL round / parts header). " +
 			"RLP: every byte string of length <= 2 (quick) / <= 3 (thorough) decoded by in-tree eth/rlp and upstream go-ethereum v1.8.27 rlp into RawValue, uint64, []byte, [][]byte, a plain struct, *big.Int, a struct with rlp:\"nil\"+rlp:\"tail\" (all lengths) and [3]byte, interface{}, string, bool (lengths <= 2), plus raw.Split/SplitList/SplitString/CountValues: same accept/reject, same value, same re-encoding; each of those inputs also walked depth-first through the rlp.Stream API (Kind, List, ListEnd, Bytes) of both implementations: same kinds, sizes, contents and an error at the same call; length bombs, single-threaded: a long-form header declaring 2^64-1, 2^63, 2^48+1 (can only panic) or 2^26 bytes, as a string and as a list, bare at top level / in a list / in a list in a list into every target, and in place of the header of every item at every depth of the base encodings of the grid roots (into the root type and the real Transaction / Receipt): no panic, TotalAlloc delta of the decode <= 64*len(input) + 1 MiB, same accept/reject as upstream; value grid (same construction, RLP domain: unsigned ints, non-nil non-negative big.Int, byte lengths {0,1(<0x80),1(>=0x80),2,55,56,57,255,256,1025}) of chain/types.KV, eth Header, the transaction field list and the consensus receipt field list: round trip, determinism, byte-equal with upstream, the real types.Transaction / types.Receipt / NewTransaction agree with the field lists; every truncation and every substitution {00,01,7f,80,ff,±1} at every header byte and first/last payload byte of those encodings decoded by both (quick: encodings up to 700 bytes and the bases), each first walked through rlp.Stream (an input on which the in-tree stream departs from upstream is reported and not handed to the typed decoders; header substitutions are not offered at all to a decoder that failed a bomb or a stream walk, since it would allocate whatever the substituted header declares). distinct_nontrivial = number of distinct (phase, target, entry point, outcome / leaf kind + shape) classes observed"),
@@ -480,7 +480,7 @@ func main() {
 	}, []string{
 		"upstream github.com/ethereum/go-ethereum/rlp v1.8.27 is the trusted reference for RLP",
 		"chain ids are valid UTF-8 (the only source of a chain id is the genesis JSON document, whose decoder yields valid UTF-8); strings offered to the JSON codec are valid UTF-8",
-		"times are millisecond-aligned instants within the int64-nanosecond range (go-wire/time.go: 'nanoseconds since epoch but with millisecond precision'); the zero time.Time is offered to JSON only",
+		"times are millisecond-aligned instants within the int64-nanosecond range (go-wire/time.go: 'nanoseconds since epoch but with millisecond precision'); the zero time.Time is offered to JSON only; a time.Time is identified with the instant it denotes (the codecs do not carry a location)",
 		"nil and empty slices are one value (the codecs do not distinguish them); unexported and json:\"-\" fields are not part of the encoded value",
 		"the allocation clause is evaluated for limits > 0; limit 0 is go-wire's documented 'no limit'",
 		"for rlp.DecodeBytes the caller's limit is the length of the input (DecodeBytes hands it to the stream as input limit); the allocation clause is evaluated as 64*len(input) + 1 MiB",
